@@ -7,6 +7,11 @@ props = [json.loads(l) for l in open(os.path.join(ROOT, "properties.jsonl"))]
 
 # id -> (category, technique, text, note, design_ref)
 CLAIMED = {
+ "C11": ("exploration",
+         "runtime monitor with fault injection: the fake coordinator sends BranchCommit requests for planted undo_log rows over three resources; transient DELETE errors, an unreachable database with killed pooled connections and a resource registered only later are injected; the monitor reads the undo_log tables and journals of the fake databases and the coordinator's frame log",
+         "Settings {defaults; limit 6 / 100 ms / channel 8 / 1 worker / buffer 1; limit 3 / 50 ms / channel 4 / 2 workers / buffer 1} x scenarios {plain, concurrent burst, duplicates, DELETE errors, database unreachable, late resource} over grids of xids x branch ids (shared both ways) with uncommitted neighbours: every request answered PhaseTwo_Committed, every committed row gone after the faults stopped and the worker stayed inactive for 40 clean-interval ticks (>= 6 s), no other row ever deleted.",
+         "'Eventually' is restated as bounded progress (40 ticks of inactivity, >= 6 s, after the last fault); a row still present then counts as lost. undo_log rows are planted directly (no phase one).",
+         "DESIGN.md §4 C11"),
  "C12": ("exploration",
          "differential runtime monitor: real CodecManager (in a client child built from /repo) vs. an independent Seata-v1 layout table, over generated messages",
          "Every generated message of all 24 types is encoded by the real codec and compared byte-for-byte with an independently written layout table, decoded back from both byte strings, and over-long error messages are checked for decodable truncation; registry rows are enumerated completely. Holds on the K cases reported in evidence, no more.",
